@@ -9,9 +9,18 @@ from facts import _pat_binds, loc
 
 
 def check(run):
-    add_rules(run, ['ACC.pair', 'ACC.guard', 'ACC.order', 'ACC.nocapture'])
+    add_rules(run, ['ACC.pair', 'ACC.guard', 'ACC.order', 'ACC.exit', 'ACC.nocapture'])
     for r, t in idxkernel.RULES.items():
         run.rule(r, t)
+    run.rule('EXT.expiry', 'the cached extreme is re-established by a full rescan of the window '
+             'exactly when its index has left the window, before it is used (so no pre-window '
+             'value survives in the cache)')
+    run.rule('EXT.tie', 'rescan / incoming comparison replace the cache through the null-last comparator')
+    run.rule('EXT.cmp', 'minimum kernels compare with sort_cmp, maximum kernels with sort_cmp_rev')
+    run.rule('EXT.result', 'the reported value is the cached extreme / its offset in the window')
+    run.rule('NORM.rescan', 'min-max normalisation rescans the window for whichever cached extreme '
+             'expired, re-seeding it from the sentinel, then folds in the current element')
+    run.rule('NORM.formula', 'min-max closed form and its null guards')
     run.rule('ACC.exact', 'min / max / arg-extrema / rank kernels keep no arithmetic '
              'accumulator besides the validity count, so pre-window history cannot leak into '
              'them through rounding')
@@ -40,6 +49,12 @@ def check(run):
                 run.ob('ACC.exact', k.fn, 'arithmetic accumulators', not arith, k.fn.loc(),
                        'arithmetic state: %s' % (arith or 'none besides the count'))
         run.floor('IDX.kernel', 'unchecked reads in window-index kernels', nidx, 30)
+        # cached extremes must be re-established from the window alone once they expire
+        import C03
+        models = {k.name: KernelModel(k) for k in ks if k.fn.file.endswith(('cmp.rs', 'norm.rs'))}
+        for name in ('ts_vargmin_to', 'ts_vmin_to', 'ts_vargmax_to', 'ts_vmax_to'):
+            C03.extreme_kernel(run, models[name], rev=('max' in name), arg=('arg' in name))
+        C03.minmax(run, models['ts_vminmaxnorm_to'])
         drivers.check_drivers(run, F, rules=('IDX.driver', 'IDX.other', 'DRV.cover', 'DRV.args',
                                              'DRV.iter'))
         if cfg == 'base':
